@@ -30,7 +30,7 @@ ASSUMPTIONS = ["callee contracts of sigpy/linop.py's classes as in C01-C04 (abst
                "minimiser claim = composition with the LinearLeastSquares contract (C14) and solver contracts (C12/C13); not re-proved here",
                "comm (MPI communicator) is None"]
 TRUSTED = ["linear-form domain of pyvc/snp.py", "tseg_off_res_b_ct (time-segmentation coefficient arrays) is an abstract pair of value arrays"]
-BOUNDS = {"num_coils": "<= 3 (quick) / <= 4 (thorough)", "image rank": "2, 3", "native probe": "shapes <= 7, coils <= 4"}
+BOUNDS = {"num_coils": "<= 3 (quick) / <= 4 (thorough)", "image rank": "2, 3", "image extents": ">= 2 (quick) / >= 1 (thorough), symbolic", "native probe": "shapes <= 7, coils <= 4"}
 NOT_DECIDED = ["the objective-reporting closures g() of L1WaveletRecon / TotalVariationRecon (used only for save_objective_values)",
                "accuracy of F itself (C05 / C06)", "convergence of the iterative solver inside the recon apps (C12/C13 give the fixed point / rate)"]
 
@@ -61,6 +61,8 @@ def load_mri_linop(lin=None):
 def _setup(v):
     D, Cn = v["D"], v["C"]
     n = linops._shape("n", D)
+    for e in n:
+        core.assume(e >= v.get("min_extent", 1))
     mps = param_array("mps", [Cn] + n)
     coord = None
     kshape = list(n)
@@ -119,6 +121,11 @@ def sense_variants(tier):
     for b in (None, 1, 2):
         out.append(dict(D=2, C=2, coord=True, weights=False, batch=b, tseg=2))
         out.append(dict(D=2, C=2, coord=True, weights=True, batch=b, transp=True, pts_rank=2))
+    if not T:
+        # quick tier: image extents >= 2 (an extent of 1 changes which axes Multiply's adjoint sums over: 2^D more paths per
+        # variant, explored in the thorough tier and by the native probe)
+        for v in out:
+            v["min_extent"] = 2
     return out
 
 
@@ -132,6 +139,10 @@ def job_sense(v, timeout_ms):
     st = {}
 
     def run():
+        with core.functional_witnesses():
+            return _run()
+
+    def _run():
         n, mps, coord, kshape, w = _setup(v)
         st[core.cur()] = (n, mps, coord, kshape, w)
         kw = {}
@@ -152,6 +163,10 @@ def job_sense(v, timeout_ms):
     inst = "Sense(%s)" % linops.vlabel(v)
 
     def post(r):
+        with core.functional_witnesses():
+            return _post(r)
+
+    def _post(r):
         if r.kind != "return":
             if v.get("transp"):
                 return []       # the transposed NUFFT needs coordinate and image shapes to coincide; rejection otherwise
@@ -221,7 +236,7 @@ def recon_variants(tier):
         for coord in (False, True):
             for wts in ("given", "none"):
                 for b in (None, 1):
-                    out.append(dict(cls=cls, D=2, C=2, coord=coord, weights=wts, batch=b))
+                    out.append(dict(cls=cls, D=2, C=2, coord=coord, weights=wts, batch=b, min_extent=(1 if tier == "thorough" else 2)))
     return out
 
 
@@ -232,6 +247,10 @@ def job_recon(v, timeout_ms):
     D, Cn = v["D"], v["C"]
 
     def run():
+        with core.functional_witnesses():
+            return _run()
+
+    def _run():
         vv = dict(v, weights=(v["weights"] == "given"))
         n, mps, coord, kshape, w = _setup(vv)
         y = param_array("y", [Cn] + list(kshape))
@@ -247,6 +266,10 @@ def job_recon(v, timeout_ms):
     inst = "%s(%s)" % (v["cls"], linops.vlabel({k: x for k, x in v.items() if k != "cls"}))
 
     def post(r):
+        with core.functional_witnesses():
+            return _post(r)
+
+    def _post(r):
         if r.kind != "return":
             return [("C16:constructs-without-error(%s)" % (r.value,), [], z3.BoolVal(False))]
         app = r.value
